@@ -19,7 +19,7 @@ From Coq Require Import Reals List String Bool Arith Permutation.
 From ND.lib Require Import Expr.
 From ND.model Require Import AtomicGen.
 From ND.gen Require Import Gen_C07.
-From ND.proofs Require Import C07_table C07_nodes C07_grid C07_lhs C07_sph.
+From ND.proofs Require Import C07_table C07_nodes C07_grid C07_lhs C07_sph C07_std.
 Import ListNotations.
 Open Scope R_scope.
 
@@ -70,6 +70,38 @@ Proof.
            nodes_defined_det venv penv fenv n idx Henv (t_term t) (e_pos_guard e)
              (det_cover e t He Ht Hn Hw Hc) Hpos Hsz).
 Qed.
+
+(* ---- the same in the other orientation: an interval passed in descending order (a > b, accepted by the
+   1-D/2-D/3-D/N-D constructors): the formulas lie in [b, a] and are defined.  The Latin-hypercube
+   stratum theorem below is stated for a < b only; descending intervals are covered by the oracle. *)
+Theorem C07_nodes_in_domain_desc : forall e t, In e table -> In t (e_tensors e) ->
+  t_noise t = false -> t_wrap t = WNone -> e_cls e <> GSph ->
+  forall venv penv fenv n idx, node_env_desc venv penv n idx ->
+  (e_pos_guard e = true -> 0 < penv p_b) -> size_ok (t_term t) n ->
+  penv p_b <= eval venv penv fenv (t_term t) <= penv p_a.
+Proof.
+  exact (fun e t He Ht Hn Hw Hc venv penv fenv n idx Henv Hpos Hsz =>
+           nodes_in_domain_det_desc venv penv fenv n idx Henv (t_term t) (e_pos_guard e)
+             (det_cover e t He Ht Hn Hw Hc) Hpos Hsz).
+Qed.
+
+Theorem C07_nodes_defined_desc : forall e t, In e table -> In t (e_tensors e) ->
+  t_noise t = false -> t_wrap t = WNone -> e_cls e <> GSph ->
+  forall venv penv fenv n idx, node_env_desc venv penv n idx ->
+  (e_pos_guard e = true -> 0 < penv p_b) -> size_ok (t_term t) n ->
+  defined venv penv fenv (t_term t).
+Proof.
+  exact (fun e t He Ht Hn Hw Hc venv penv fenv n idx Henv Hpos Hsz =>
+           nodes_defined_det_desc venv penv fenv n idx Henv (t_term t) (e_pos_guard e)
+             (det_cover e t He Ht Hn Hw Hc) Hpos Hsz).
+Qed.
+
+(* ---- noisy methods: every tensor with normal noise is  mean + S * z  with exactly one std factor S,
+   and S >= 0 for ALL real bounds (either orientation), sizes, indices and draws: torch.normal never
+   sees a negative std (default std |(max - min)/n|/4 since 0dd583c; exp-spaced |noise_rstd * node|) *)
+Theorem C07_noisy_std_nonneg : forall e t, In e table -> In t (e_tensors e) -> t_noise t = true ->
+  exists s, z_coeffs (t_term t) = [s] /\ forall venv penv fenv, 0 <= eval venv penv fenv s.
+Proof. exact noisy_std_nonneg. Qed.
 
 (* ---- grid methods: 2-D / 3-D / N-D classes use meshgrid(indexing='ij') + flatten with the
    arguments in axis order, and that is the row-major tensor product of the 1-D node lists *)
